@@ -30,7 +30,7 @@ def unq(s):
     return s.replace("\\n", "\n").replace('\\"', '"').replace("\\\\", "\\")
 
 
-def iface_sweep(ck):
+def iface_sweep(ck, names_only=False):
     """Stage interfaces in every argument shape (bare @builtin / @location arguments and struct arguments in any order):
     the text of every text back end must be readable and carry exactly the WGSL's user locations on each side."""
     out = ck.harness("c17iface", {"quick": 300, "thorough": 20000}.get(ck.tier, 300), timeout=3000, subdir="c17iface")
@@ -44,7 +44,7 @@ def iface_sweep(ck):
     un = lambda x: x.replace("\\n", "\n").replace('\\"', '"').replace("\\\\", "\\")
     seen = set()
     vf = os.path.join(out, "violations.txt")
-    if os.path.exists(vf):
+    if os.path.exists(vf) and not names_only:   # C16 runs this sweep for the redeclaration rule only
         for l in common.read_lines(vf):
             m = re.match(r'"((?:[^"\\]|\\.)*)" "((?:[^"\\]|\\.)*)" "((?:[^"\\]|\\.)*)"', l)
             what = un(m.group(1)) if m else l[:300]
@@ -61,8 +61,38 @@ def iface_sweep(ck):
                           "emitted": un(m.group(3))[:5000] if m else None,
                           "how": "the emitted text is unreadable (nameless parameter, empty member reference …) or the user locations "
                                  "on the input / output side of the entry point differ from the WGSL declaration"}, found_input=True)
+    # names: no text may declare one name twice in one scope (Sem/CLike.redeclaration, the rule the program sweeps use)
+    rc = os.path.join(out, "redecl-cases.txt")
+    if os.path.exists(rc) and ck.driver() and ck.run_driver(["csem"], rc, os.path.join(out, "redecl-model.txt")):
+        res = common.read_lines(os.path.join(out, "redecl-model.txt"))
+        srcs = common.read_lines(os.path.join(out, "redecl-src.txt"))
+        cases = common.read_lines(rc)
+        tally = {"ok": 0, "redeclaration": 0}
+        for r, sline, cs in zip(res, srcs, cases):
+            ck.case("redecl" + cs[:3000], nontrivial=True)
+            if r == "ok":
+                tally["ok"] += 1
+                continue
+            tally["redeclaration"] += 1
+            dialect = cs.split(" ")[1]
+            cls = dialect + ": " + re.sub(r"(type|global|function|local|struct|name) \S+", r"\1 X", re.sub(r"[0-9]+", "N", r))[:90]
+            if cls in seen:
+                continue
+            seen.add(cls)
+            m = re.match(r'"((?:[^"\\]|\\.)*)" "((?:[^"\\]|\\.)*)"', sline)
+            fid = None
+            for kf in ck.known:
+                wr = kf.get("match", {}).get("what_regex")
+                if wr and re.search(wr, dialect + ": " + r):
+                    fid = kf["id"]
+            ck.violation({"kind": "emitted-text-redeclares-a-name", "finding": fid, "what": dialect + ": " + r, "wgsl": un(m.group(1)) if m else None,
+                          "emitted": un(m.group(2))[:6000] if m else None,
+                          "how": "the emitted text declares one name twice in one scope (two members of a struct, two types, two locals of a "
+                                 "block, …): the target language rejects it — a user identifier clashed with a generated name or with another one"},
+                         found_input=True)
+        ck.extra["stage_interface_redeclarations"] = tally
     bf = os.path.join(out, "backend-errors.txt")
-    if os.path.exists(bf):
+    if os.path.exists(bf) and not names_only:
         for l in common.read_lines(bf)[:2]:
             ck.violation({"kind": "stage-interface-backend-error", "what": l[:1500],
                           "how": "a text back end refused a valid vertex / fragment entry point"}, found_input=True)
